@@ -37,8 +37,10 @@ CLAIMED = {
              "C02_plain_refines_partial / C02_refines_partial (the resolved term list with later duplicates "
              "dropped IS the denotation, for chains of plain items, intercept literals and added / "
              "subtracted group items; guards = the recorded gap classes D3 D22 D24 D25), C02_nodup, "
-             "C02_plain_total_partial; that every scanned formula has the shape the theorem covers is "
-             "checked per case, not proved.",
+             "C02_plain_total_partial; C02_scanner_shape_partial: every character string the scanner and "
+             "the parser accept whose tree is a formula of the language has the shape the refinement "
+             "theorem covers (no tilde, or the tilde at the root; a tilde nested in brackets is outside the "
+             "language, which is checked per case, not proved).",
         technique="Lean 4 proof (refinement of the operator-overload model to the Wilkinson-Rogers "
                   "denotation) + table tie (decide) + exhaustive differential correspondence",
         ref="6 C02"),
@@ -175,10 +177,14 @@ CLAIMED = {
              "row, pass keeps all rows, other actions and empty frames refused, unused columns ignored, "
              "row alignment of all columns; "
              "accepted actions regenerated from matrices.py and tied by `decide`. Spec.C09 (used variables "
-             "from the AST, drop run = run on the filtered frame, error policy, pass rule against the "
-             "imputed reference) is evaluated by the driver on real runs over generated missingness "
-             "patterns in used and unused columns, under scrambled / non-unique row labels; the "
-             "whole-pipeline Lean model is compared under the drop and pass policies.",
+             "= those of the terms of the formula's denotation, so that a variable whose terms are all "
+             "removed again with `-` is not used; model: var_names of the resolved model; drop run = run on "
+             "the filtered frame, error policy, pass rule against the imputed reference, complete rows under "
+             "pass = rows under drop for transforms that fit parameters) is evaluated by the driver on real "
+             "runs over generated missingness patterns in used and unused columns, under scrambled / "
+             "non-unique row labels; the whole-pipeline Lean model is compared under the drop and pass "
+             "policies (C09_pipeline_readings_agree: the pipeline the C04/C15/C17 theorems are about equals "
+             "the executed one wherever both readings of 'used' select the same columns).",
         note="Trusted: Lean kernel; translator; pandas isna / boolean selection as modelled; pass is "
              "judged only for missing numeric variables in plain variables / pointwise calls (a missing "
              "categorical value under pass raises TypeError in sorted(): outside the statement).",
